@@ -129,7 +129,8 @@ def _split_top(s):
 
 
 def norm_rep_spelling(text):
-    """identify the spellings of one selector that share a representative peer: `k In [v]` = `k=v`, and a namespace named by its name label"""
+    """identify the spellings of one selector that share a representative peer: `k In [v]` = `k=v`, the values of an expression in any order, and a namespace named by its name label"""
+    text = re.sub(r'Values:\[([^\]{}]*)\]', lambda m: 'Values:[%s]' % ' '.join(sorted(m.group(1).split(' '))), text)    # the order the values were written in
     text = IN1.sub(lambda m: '%s=%s' % (m.group(1), m.group(2)), text)
     text = WITH.sub(lambda m: '%s with {%s}' % (m.group(1), ','.join(sorted(_split_top(m.group(2))))), text)
     text = re.sub(r'\[namespace with \{kubernetes\.io/metadata\.name=([^,{}]*)\}\]', lambda m: m.group(1), text)
@@ -296,7 +297,14 @@ def replay(payload):
         run.count(1)
         sigs = [(o['outcome'], o.get('out')) for o in outs]
         if any(s != sigs[0] for s in sigs):
-            run.report(None, 'replay', payload, 'output differs between runs')
+            oj = next(o for o, s in zip(outs, sigs) if s != sigs[0])
+            o0, fid = outs[0], None
+            if payload.get('exposure') and o0['outcome'] == 'ok' and oj['outcome'] == 'ok':
+                if norm_rep_spelling(o0.get('out', '')) == norm_rep_spelling(oj.get('out', '')):
+                    fid = FID_SPELLING
+                elif norm_rep_spelling(norm_full_named(o0.get('out', ''))) == norm_rep_spelling(norm_full_named(oj.get('out', ''))):
+                    fid = FID_FULLNAMED
+            run.report(fid, 'replay', payload, 'output differs between runs')
     finally:
         h.close()
     return run.finish()
